@@ -1,4 +1,5 @@
 import Tahoe.Dir.TraverseStats
+import Tahoe.Dir.TraversePotential
 /-! C21 — deep traversal visits every reachable object exactly once (property theorems; helper lemmas in
     `Tahoe/Dir/TraverseLemmas.lean`, model in `Tahoe/Dir/Traverse.lean`).
 
@@ -17,6 +18,19 @@ import Tahoe.Dir.TraverseStats
                children of n) ≤ cost n ≤ C`.  It exists exactly when literal directories do not contain
                themselves (they are immutable, so they cannot); with no literal directory inside a directory,
                `cost = 1` (`fuel_graph_size_suffices`). -/
+/-! ## Coverage of the statement (C21, properties.jsonl)
+
+| clause of the statement | theorem(s) for the model `Tahoe.Dir.Traverse` |
+|---|---|
+| "building a manifest, collecting deep statistics or deep-checking" — all three are walkers driven by one `deep_traverse` | the model is `deep_traverse` with the walker's event list as output; the walkers themselves (ManifestWalker, DeepStats, DeepChecker) are folds over that list: `deepStats` is in the model (`stats_count_each_object_once`), manifest order / deep-check counters / result paths are **correspondence + monitor only** (harness compares all five operations with the event list) |
+| "visits every file and directory reachable from it" | `visits_all_reachable` (+ `visits_only_reachable`) |
+| "exactly once" (objects with a verify cap) | `at_most_once_per_verifier`, `visits_each_object_exactly_once`, `stats_count_each_object_once` |
+| "exactly once" read for objects without verify cap (LIT files/dirs, unknown): once per link, as the code's comment says | `literal_reported_per_link` |
+| "even when subdirectories are shared between parents or form cycles" (termination) | `terminates_on_cycles`, `fuel_graph_size_suffices`, `terminates_with_nested_literal_dirs` (potential constructed from cap-length nesting; no hypothesis on cycles) |
+| "each reported path leads to the object reported for it" | `paths_lead_to_node` |
+| sizes in deep-stats (size-*, largest-*, histogram) | **correspondence + monitor only** (sizes are not in the model) |
+| behaviour under concurrent modification, cancellation, errors from `list()` | **not covered** |
+-/
 namespace Tahoe.C21
 open Tahoe.Dir.Traverse
 
@@ -130,6 +144,42 @@ theorem fuel_graph_size_suffices (U : List V) (hU : ∀ n v, (g n).verifier = so
     rw [litCost_one_zero g (g n).children (hlit n)]
     exact Nat.le_refl 1
   · omega
+
+/-- **(a, with literal directories nested in directories)** The potential that `terminates_on_cycles` takes as a
+    hypothesis exists whenever literal directories nest well-foundedly, which they do: a LIT directory is its
+    own cap string and a LIT directory inside it is a part of that string, so the cap length `size` strictly
+    decreases from a literal directory to a literal directory it contains.  With at most `B` children per
+    directory and literal directories of `size ≤ R`, `potBound B (R+1) · (|U| + 1)` directory visits suffice
+    (`potBound B 0 = 1`, `potBound B (r+1) = 1 + B · potBound B r`) — again whatever the cycles through
+    directories that have a verify cap. -/
+theorem terminates_with_nested_literal_dirs (U : List V) (hU : ∀ n v, (g n).verifier = some v → v ∈ U)
+    (B R : Nat) (size : Nat → Nat) (hB : ∀ n, (g n).children.length ≤ B)
+    (hR : ∀ n, IsLitDir g n → size n ≤ R)
+    (hsize : ∀ n name c, IsLitDir g n → (name, c) ∈ (g n).children → IsLitDir g c → size c < size n)
+    (root fuel : Nat) (hfuel : potBound B (R + 1) * (U.length + 1) ≤ fuel) :
+    (traverse g root fuel).2 = true := by
+  obtain ⟨hC, hcost⟩ := potCost_ok g B R size hB hR hsize
+  apply terminates_on_cycles g (potCost g B R size) (potBound B (R + 1)) U hC hU hcost
+  have := hC root
+  rw [Nat.mul_add, Nat.mul_one] at hfuel
+  omega
+
+/-- a LIT directory (node 2, cap length 9) holding a LIT directory (node 3, cap length 4), both linked twice from a
+    directory that is part of a cycle: `B = 3`, `R = 9` meet the hypotheses, and the walk finishes -/
+example :
+    let g : Graph Nat := fun n =>
+      match n with
+      | 0 => ⟨.dir, some 10, [("a", 1), ("l", 2), ("m", 2)]⟩
+      | 1 => ⟨.dir, some 11, [("up", 0), ("l", 2)]⟩
+      | 2 => ⟨.dir, none, [("inner", 3), ("again", 3)]⟩
+      | 3 => ⟨.dir, none, [("f", 4)]⟩
+      | _ => ⟨.file, none, []⟩
+    let size : Nat → Nat := fun n => if n = 2 then 9 else if n = 3 then 4 else 0
+    (∀ n, n < 5 → (g n).children.length ≤ 3) ∧
+    (∀ n, n < 5 → IsLitDir g n → size n ≤ 9) ∧
+    (∀ n, n < 5 → ∀ kc ∈ (g n).children, IsLitDir g n → IsLitDir g kc.2 → size kc.2 < size n) ∧
+    (traverse g 0 40).2 = true ∧ ((traverse g 0 40).1.filter (· == .enterDir 3)).length = 6 := by
+  decide
 
 /-- **(b) Every reachable node is visited.**  When the walk has finished, every node reachable from the root
     by links through directories has been handed to the walker — itself, or (for an object with a verify cap
